@@ -82,7 +82,7 @@ func targets(c caseCfg, f []string) (paths []string, names []string) {
 		return c.vcwd + "/" + p
 	}
 	switch f[0] {
-	case "put", "get", "del", "qry":
+	case "put", "get", "gmt", "del", "qry":
 		if k, ok := unhx(f[1]); ok {
 			return []string{c.vroot + "/" + k}, []string{k}
 		}
@@ -109,6 +109,34 @@ func targets(c caseCfg, f []string) (paths []string, names []string) {
 	case "scan":
 		if p, ok := unhx(f[1]); ok && p != "" {
 			return []string{abs(p)}, []string{p}
+		}
+	}
+	return nil, nil
+}
+
+// targetsDsh: the absolute path a call on node h of the tree requests.
+func targetsDsh(c caseCfg, f []string, nodePath map[string]string) (paths []string, names []string) {
+	np, ok := nodePath[f[1]]
+	if !ok {
+		return nil, nil
+	}
+	switch {
+	case f[0] == "hens" && len(f) == 2:
+		return []string{np}, []string{np}
+	case f[0] == "hena" && len(f) == 3:
+		if p, ok := unhx(f[2]); ok {
+			if strings.HasPrefix(p, "/") {
+				return []string{p}, []string{p}
+			}
+			return []string{c.vcwd + "/" + p}, []string{p}
+		}
+	case f[0] == "henr" && len(f) == 3:
+		if p, ok := unhx(f[2]); ok {
+			return []string{np + "/" + p}, []string{p}
+		}
+	case f[0] == "hend" && len(f) == 3:
+		if xs, ok := unhxList(f[2]); ok {
+			return []string{np + "/" + strings.Join(xs, "/")}, []string{strings.Join(xs, "/")}
 		}
 	}
 	return nil, nil
@@ -156,14 +184,46 @@ func monitor(c hxlib.Case, outs []string) (vs []hxlib.Violation) {
 		return nil
 	}
 	root := resolveAbs(cfg.vroot)
+	fssAt, fsState := 0, "plain"
 	add := func(i int, sig, what string) {
-		vs = append(vs, hxlib.Violation{Sig: sig, What: what, Lines: []string{c.Lines[0], c.Lines[i]}, Output: []string{outs[0], outs[i]}})
+		if fssAt > 0 {
+			sig += ":fs=" + fsState
+		}
+		lines, out := []string{c.Lines[0], c.Lines[i]}, []string{outs[0], outs[i]}
+		if fssAt > 0 { // the state of the file system below the root is part of the input
+			lines, out = []string{c.Lines[0], c.Lines[fssAt], c.Lines[i]}, []string{outs[0], outs[fssAt], outs[i]}
+		}
+		if cfg.comp == "dsh" {
+			// a history: the replay is the case up to the failing call
+			lines, out = append([]string{}, c.Lines[:i+1]...), append([]string{}, outs[:i+1]...)
+		}
+		vs = append(vs, hxlib.Violation{Sig: sig, What: what, Lines: lines, Output: out})
 	}
+	// comp dsh: the path every node of the tree stands for, as the caller named it (parent's path + "/" + name given
+	// to ChildDir; resolved lexically by resolveAbs only) — node numbers are taken from the implementation's answers
+	nodePath := map[string]string{"0": cfg.vroot}
 	for i := 1; i < len(c.Lines); i++ {
 		f := strings.Fields(c.Lines[i])
 		o := outs[i]
 		if len(f) < 2 || o == "bad-op" {
 			continue
+		}
+		if f[0] == "fss" {
+			fssAt, fsState = i, f[1]
+			if f[1] == "plain" {
+				fssAt = 0
+			}
+			count("fs-state:" + f[1])
+			continue
+		}
+		if cfg.comp == "dsh" && f[0] == "chd" && len(f) == 4 {
+			if of := strings.Fields(o); len(of) >= 2 && of[0] == "child" {
+				if name, ok := unhx(f[2]); ok {
+					if _, known := nodePath[of[1]]; !known {
+						nodePath[of[1]] = nodePath[f[1]] + "/" + name
+					}
+				}
+			}
 		}
 		site := cfg.comp + "." + f[0]
 		if strings.HasPrefix(o, "PANIC") {
@@ -176,10 +236,15 @@ func monitor(c hxlib.Case, outs []string) (vs []hxlib.Violation) {
 		}
 		dec, outside := o[:k], o[k+len(" outside="):]
 		df := strings.Fields(dec)
-		if len(df) >= 2 {
+		if len(df) >= 2 && df[0] == "child" {
+			count("decision:" + site + ":child")
+		} else if len(df) >= 2 {
 			count("decision:" + site + ":" + df[0] + "-" + df[1])
 		}
 		paths, names := targets(cfg, f)
+		if cfg.comp == "dsh" {
+			paths, names = targetsDsh(cfg, f, nodePath)
+		}
 		cls, escapes, firstEsc := "inside", false, -1
 		for j, p := range paths {
 			if !under(resolveAbs(p), root) {
@@ -214,13 +279,21 @@ func monitor(c hxlib.Case, outs []string) (vs []hxlib.Violation) {
 			}
 		}
 		// (3) nothing returned comes from outside
-		if len(df) == 3 && df[0] == "acc" && df[2] != "_" {
+		if len(df) >= 3 && df[0] == "acc" && df[2] != "_" {
 			items, ok := unhxList(df[2])
+			if df[1] == "dirsm" { // items are "<hex path>:<mode>"
+				items, ok = nil, true
+				for _, it := range strings.Split(df[2], ",") {
+					d, ok2 := unhx(strings.SplitN(it, ":", 2)[0])
+					ok = ok && ok2
+					items = append(items, d)
+				}
+			}
 			if ok {
 				for _, it := range items {
 					bad := false
 					switch df[1] {
-					case "data", "keys", "created", "deleted", "dirs":
+					case "data", "keys", "created", "deleted", "dirs", "dirsm":
 						bad = !under(resolveAbs(it), root)
 					case "ids":
 						bad = !under(resolveAbs(cfg.vroot+"/"+it), root)
